@@ -41,6 +41,7 @@ type Ctx struct {
 
 	// lazily computed
 	cg       *CallGraph
+	im       *immut
 	postdoms map[*ssa.Function]*postDom
 }
 
